@@ -120,7 +120,12 @@ class Ctx:
         self.level = level
         self.seed = int(os.environ.get('VERIF_SEED', '1') or 1)
         self.t0 = time.time()
-        self.work = os.path.join(BUILD, 'work', prop)
+        # one scratch directory per property, tier and evidence directory, so that a quick and a thorough run of the same
+        # check (or a run against a scratch copy with its own VERIF_EVIDENCE) never delete each other's files
+        tag = prop if tier == 'quick' else prop + '_' + tier
+        if EVID != os.path.join(ROOT, 'evidence'):
+            tag += '_' + os.path.basename(EVID.rstrip('/'))
+        self.work = os.path.join(BUILD, 'work', tag)
         shutil.rmtree(self.work, ignore_errors=True)
         os.makedirs(self.work, exist_ok=True)
         os.makedirs(EVID, exist_ok=True)
